@@ -183,7 +183,7 @@ def load_witnesses():
     if not WITNESS_FILE.exists():
         return {}
     with gzip.open(WITNESS_FILE, "rt") as f:
-        return json.load(f)
+        return {k: set(v) for k, v in json.load(f).items()}
 
 
 def wkey(ver, driver, m, w, want):
@@ -208,10 +208,18 @@ def report(ctx: Ctx, scope, m, info, bad, witnesses, collect):
         if collect is not None:
             collect.setdefault(scope, []).append(k)
         finding = None
-        if not detail.startswith("raised") and "attributed" not in detail \
-                and "without an error" not in detail:
-            if k in witnesses.get(scope, ()):        # complete list inside the exhaustive scope
-                finding = "F-C01-greedy" if not info["strong"] else "F-C01-wrap"
+        if not detail.startswith("raised") and "without an error" not in detail \
+                and k in witnesses.get(scope, ()):        # complete list inside the exhaustive scope
+            if "attributed" in detail:
+                finding = "F-C01-attr11"
+            elif not want:
+                finding = "F-C01-overaccept"
+            elif ver == "1.1" and info["mixed"]:
+                finding = "F-C01-precedence11"
+            elif not info["strong"]:
+                finding = "F-C01-greedy"
+            else:
+                finding = "F-C01-strong-reject"
         ctx.report(case, f"{ver} {driver}: {cm.model_str(m)} on '{''.join(w)}': spec "
                          f"{'valid' if want else 'invalid'}, {detail}", finding=finding)
 
